@@ -10,12 +10,12 @@ use passage_adapters::strategy::StrategyAdapter;
 pub use proxy_header::ParseConfig;
 use proxy_header::io::ProxiedStream;
 use std::net::{IpAddr, SocketAddr};
-use std::sync::Arc;
+use std::sync::{Arc, Mutex, PoisonError};
 use std::time::Duration;
 use tokio::io::AsyncWriteExt;
 use tokio::net::{TcpListener, TcpStream, ToSocketAddrs};
 use tokio::select;
-use tokio::time::{Instant, timeout};
+use tokio::time::{Instant, timeout_at};
 use tokio_util::sync::CancellationToken;
 use tokio_util::task::TaskTracker;
 use tracing::{debug, info, instrument, warn};
@@ -31,7 +31,7 @@ pub struct Listener<Stat, Disc, Filt, Stra, Auth, Loca> {
     authentication_adapter: Arc<Auth>,
     localization_adapter: Arc<Loca>,
     tracker: TaskTracker,
-    rate_limiter: Option<RateLimiter<IpAddr>>,
+    rate_limiter: Option<Arc<Mutex<RateLimiter<IpAddr>>>>,
     proxy_protocol: Option<ParseConfig>,
     connection_timeout: Duration,
     auth_secret: Option<Vec<u8>>,
@@ -74,7 +74,7 @@ where
     }
 
     pub fn with_rate_limiter(mut self, rate_limiter: Option<RateLimiter<IpAddr>>) -> Self {
-        self.rate_limiter = rate_limiter;
+        self.rate_limiter = rate_limiter.map(|rate_limiter| Arc::new(Mutex::new(rate_limiter)));
         self
     }
 
@@ -120,7 +120,7 @@ where
                     break;
                 },
             };
-            self.handle(stream, addr).await;
+            self.handle(stream, addr);
         }
 
         // wait for all connections to finish
@@ -132,46 +132,11 @@ where
     }
 
     #[instrument(skip(self, stream))]
-    async fn handle(&mut self, stream: TcpStream, addr: SocketAddr) {
+    fn handle(&mut self, stream: TcpStream, addr: SocketAddr) {
         let connection_start = Instant::now();
 
-        let (mut stream, client_addr) = if let Some(proxy_config) = self.proxy_protocol {
-            match ProxiedStream::create_from_tokio(stream, proxy_config).await {
-                Ok(stream) => {
-                    let client_addr = stream
-                        .proxy_header()
-                        .proxied_address()
-                        .map(|address| address.source)
-                        .unwrap_or(addr);
-                    (stream, client_addr)
-                }
-                Err(e) => {
-                    debug!(
-                        cause = e.to_string(),
-                        addr = addr.to_string(),
-                        "failed to parse proxy protocol header, connection closed"
-                    );
-                    return;
-                }
-            }
-        } else {
-            (ProxiedStream::unproxied(stream), addr)
-        };
-        debug!(addr = %client_addr, "handling new connection");
-
-        // check rate limiter (use real client address)
-        if let Some(rate_limiter) = &mut self.rate_limiter
-            && !rate_limiter.enqueue(client_addr.ip())
-        {
-            info!(addr = client_addr.to_string(), "rate limited client");
-            metrics::request_duration::record(connection_start, "rejected");
-
-            if let Err(e) = stream.shutdown().await {
-                debug!(cause = e.to_string(), "failed to close a client connection");
-            }
-            return;
-        }
-
+        let proxy_protocol = self.proxy_protocol;
+        let rate_limiter = self.rate_limiter.clone();
         let connection_timeout = self.connection_timeout;
         let status_adapter = self.status_adapter.clone();
         let discovery_adapter = self.discovery_adapter.clone();
@@ -183,8 +148,62 @@ where
         let max_packet_length = self.max_packet_length;
         let auth_cookie_expiry = self.auth_cookie_expiry;
 
-        // create a new connection and run protocol
+        // handle the connection in its own task, such that no client can delay any other client
         self.tracker.spawn(async move {
+            // everything the client is awaited for has to finish before the deadline
+            let deadline = connection_start + connection_timeout;
+
+            let (mut stream, client_addr) = if let Some(proxy_config) = proxy_protocol {
+                match timeout_at(deadline, ProxiedStream::create_from_tokio(stream, proxy_config))
+                    .await
+                {
+                    Ok(Ok(stream)) => {
+                        let client_addr = stream
+                            .proxy_header()
+                            .proxied_address()
+                            .map(|address| address.source)
+                            .unwrap_or(addr);
+                        (stream, client_addr)
+                    }
+                    Ok(Err(e)) => {
+                        debug!(
+                            cause = e.to_string(),
+                            addr = addr.to_string(),
+                            "failed to parse proxy protocol header, connection closed"
+                        );
+                        return;
+                    }
+                    Err(_) => {
+                        debug!(
+                            addr = addr.to_string(),
+                            "timeout while awaiting proxy protocol header, connection closed"
+                        );
+                        return;
+                    }
+                }
+            } else {
+                (ProxiedStream::unproxied(stream), addr)
+            };
+            debug!(addr = %client_addr, "handling new connection");
+
+            // check rate limiter (use real client address)
+            let rate_limited = rate_limiter.is_some_and(|rate_limiter| {
+                !rate_limiter
+                    .lock()
+                    .unwrap_or_else(PoisonError::into_inner)
+                    .enqueue(client_addr.ip())
+            });
+            if rate_limited {
+                info!(addr = client_addr.to_string(), "rate limited client");
+                metrics::request_duration::record(connection_start, "rejected");
+
+                if let Err(e) = stream.shutdown().await {
+                    debug!(cause = e.to_string(), "failed to close a client connection");
+                }
+                return;
+            }
+
+            // create a new connection and run protocol
             metrics::open_connections::inc();
             let mut connection = Connection::new(
                 &mut stream,
@@ -201,7 +220,7 @@ where
             .with_auth_cookie_expiry(auth_cookie_expiry);
 
             // handle the client connection (ignore connection closed by the client)
-            let timeout = timeout(connection_timeout, connection.listen()).await;
+            let timeout = timeout_at(deadline, connection.listen()).await;
             let connection_result = match timeout {
                 Ok(Err(Error::ConnectionClosed(_))) => "connection-closed",
                 Ok(Err(err)) => {
